@@ -178,8 +178,34 @@ def hermitian_matrix(seed, k):
     return (a + a.conj().T) / 2
 
 
+def named_matrix(name):
+    """Two-qubit Hermitian involutions (M @ M = I), given as dense matrices."""
+    if name == "SWAP":
+        return gate_matrix("SWAP")
+    if name == "CNOT":
+        return gate_matrix("CNOT")
+    if name == "XX":
+        return np.kron(X, X)
+    if name == "XZ":
+        return np.kron(X, Z)
+    if name == "-ZZ":
+        return -np.kron(Z, Z)
+    if name.startswith("RND"):
+        g = np.random.Generator(np.random.PCG64(1000 + int(name[3:])))
+        a = g.normal(size=(4, 4)) + 1j * g.normal(size=(4, 4))
+        q, _ = np.linalg.qr(a)
+        d = np.diag([1.0, -1.0, 1.0, -1.0] if int(name[3:]) % 2 else [1.0, 1.0, 1.0, -1.0])
+        m = q @ d @ q.conj().T
+        return (m + m.conj().T) / 2
+    raise ValueError(name)
+
+
 def obs_matrix_and_wires(spec):
     kind = spec[0]
+    if kind == "SP":
+        return spec[1] * _kron(*[PAULI[c] for c in spec[2]]), list(spec[3])
+    if kind == "HM":
+        return named_matrix(spec[1]), list(spec[2])
     if kind == "P":
         return _kron(*[PAULI[c] for c in spec[1]]), list(spec[2])
     if kind == "H":
